@@ -132,6 +132,7 @@ typedef struct {
     int      early_data;     /* 1.3 PSK: 1 = credential and server session allow early data; 2 = the credential allows it but the server SESSION disabled it (tls13SessionMaxEarlyData 0) */
     int      resume13;       /* TLS 1.3: world_init first runs a complete connection (server session with early data enabled when early_data != 0) so that the sessions under test resume with its NewSessionTicket */
     int      early_send;     /* the honest client sends one early-data record right after its ClientHello */
+    int      dtls_cmulti;    /* DTLS: the client enables DTLS 1.2 and 1.0 (its first flights carry record version fe fd), whatever the server (ver) supports */
     int      tickets;        /* 1: load session ticket keys on server, client asks; 2: the client asks, the server has none */
     int      pmtu;           /* DTLS: 0 default */
     int      bogus_psk;      /* TLS 1.3 certificate modes: the client additionally offers an external PSK the server does not know */
